@@ -86,3 +86,13 @@ fi
 OUT=$V
 if [ "$REPO" != "/repo" ]; then OUT=${VERIF_OUT:-$scratch/out}; mkdir -p $OUT/evidence $OUT/replays; fi
 $scratch/mc check -prop $PROP -tier $TIER -evidence $OUT/evidence/$PROP.json -replays $OUT/replays -known $V/known_findings.json -instr-stats $scratch/stats.json $SELF "$@"
+rc=$?
+if [ $rc -eq 3 ]; then
+  # the coordinator was stopped by its watchdog (an execution stuck outside the controlled scheduler: an engine
+  # problem, never a verdict; the stacks are in /var/tmp/mc-watchdog-*.txt): the whole check is run once more
+  echo "NOTE the check was stopped by the engine's watchdog and is run again"
+  $scratch/mc check -prop $PROP -tier $TIER -evidence $OUT/evidence/$PROP.json -replays $OUT/replays -known $V/known_findings.json -instr-stats $scratch/stats.json $SELF "$@"
+  rc=$?
+  [ $rc -eq 3 ] && { echo "ENGINE-ERROR the check was stopped by the engine's watchdog twice"; rc=2; }
+fi
+exit $rc
